@@ -1302,8 +1302,26 @@ def compare_model(ctx, out, case, cmps, base, had_bad):
             return
         body = resp[3:]
         if stream == 'near-uns':
+            body, sep_, first = body.partition(' first ')
+            if not sep_:
+                raise MachineryError('near-uns response without the nearestUnstructured values: %r' % resp[:80])
             groups = [] if body == '-' else [parse_vals(g) for g in body.split(';')]
+            first = parse_vals(first)
             skip = opt.get('skip') or set()
+            # `nearestUnstructured` (the definition the theorems speak about) must pick one of the minimisers, and where
+            # the closest sample value is unique the real interpolator must return exactly that value
+            if len(first) != len(groups) or any(f is None or f not in grp for f, grp in zip(first, groups)):
+                raise MachineryError('nearestUnstructured is not among the minimisers: %r' % resp[:200])
+            for i, (g, f, grp) in enumerate(zip(got, first, groups)):
+                if i in skip:
+                    continue
+                if len(set(grp)) == 1:
+                    ctx.count('near-uns:unique-closest-value')
+                    if g != float(f):
+                        ctx.disagree('C18 near-uns first', {'case': case, 'model': resp, 'impl': got, 'index': i})
+                        return
+                else:
+                    ctx.count('near-uns:tie-between-different-values')
             ctx.boundary_skipped += len(skip)
             if len(groups) != len(got) or any(g not in [float(v) for v in grp] for i, (g, grp) in enumerate(zip(got, groups)) if i not in skip):
                 ctx.disagree('C18 near-uns', {'case': case, 'model': resp, 'impl': got})
@@ -1331,13 +1349,15 @@ def compare_model(ctx, out, case, cmps, base, had_bad):
 
 
 def run(ctx):
-    ctx.rule = ('four families, equal shares: (sep) linear and nearest interpolators on regular and irregular separated source '
+    ctx.rule = ('six families, equal shares: (sep) linear and nearest interpolators on regular and irregular separated source '
                 'grids, 1-3 D, non-square / square with different axes / square, affine or random sample values, evaluated on '
                 'unstructured, separated, regular grids or the source grid itself, points on knots, on cell midpoints (nearest '
                 'ties), inside and outside the domain, through the dispatcher and the direct constructors; (uns) the same on '
                 'scattered 2-D grids, the simplex SciPy picks is handed to the model; (bin) subsample_field sum/mean, factor 1-4, '
                 '1-3 D, scalar and tensor fields, regular and separated (weighted-mean) grids; (ss) evaluate_supersampled of '
-                'affine and quadratic generators, scalar and per-axis oversampling, mean and sum. Non-trivial = every case '
+                'affine and quadratic generators, scalar and per-axis oversampling, mean and sum; (scale) the interpolators at '
+                'physical scales 2^-30 .. 2^20 and 1e-9 .. 1e6 on nearly-equal evaluation grids; (reuse) grid objects used again '
+                'after in-place / copying reverse, scale, shift. Non-trivial = every case '
                 '(each evaluates at least one interpolant or bin); distinct by family-specific shape signature.')
     ctx.assumptions += ['scipy RegularGridInterpolator / LinearNDInterpolator / NearestNDInterpolator meet their specification',
                         'the Delaunay simplex containing each evaluation point is read from the SciPy object inside the interpolator closure',
